@@ -28,6 +28,30 @@ class Ctx:
         return normalized(self, fi, depth, True, tuple(keep))
 
 
+def attach_owners(ctx):
+    """A finding in a private module-level helper (`module:_helper`) is also known by the public top-level definition of the same
+    module that uses it, when there is exactly one: moving a nested function out to module level does not change whose defect it is."""
+    import ast
+    for f in ctx.run.findings:
+        if getattr(f, 'owners', None) is not None:
+            continue
+        f.owners = []
+        try:
+            fi = ctx.repo.func(f.function, None)
+        except Exception:
+            fi = None
+        if fi is None or fi.parent is not None or fi.cls is not None or not fi.name.startswith('_') or fi.name.startswith('__'):
+            continue
+        users = []
+        for st in fi.module.tree.body:
+            if isinstance(st, (ast.FunctionDef, ast.AsyncFunctionDef, ast.ClassDef)) and st is not fi.node and \
+                    any(isinstance(c, ast.Name) and c.id == fi.name and isinstance(c.ctx, ast.Load) for c in ast.walk(st)):
+                users.append(st.name)
+        public = [nm for nm in users if not nm.startswith('_')]
+        if len(users) == 1 and len(public) == 1:
+            f.owners = ['%s:%s' % (fi.module.name, public[0])]
+
+
 def run_check(prop, tier, seed, audit=True):
     try:
         mod = importlib.import_module('checks.%s' % prop)
@@ -42,6 +66,7 @@ def run_check(prop, tier, seed, audit=True):
         explanation, assumptions = mod.check(ctx)
         from .report import load_known, match_known
         known = load_known()
+        attach_owners(ctx)
         unlisted = [f for f in ctx.run.findings if match_known(known, f) is None]
         if ctx.thorough and audit and not unlisted and os.environ.get('VERIF_NO_AUDIT') != '1':
             try:
@@ -56,6 +81,8 @@ def run_check(prop, tier, seed, audit=True):
         try:
             from .report import load_known, match_known
             known = load_known()
+            if 'ctx' in locals():
+                attach_owners(ctx)
             if 'ctx' in locals() and any(match_known(known, f) is None for f in ctx.run.findings):
                 print('ANALYSIS-ERROR (after violations were found; reporting those) property=%s %s' % (prop, e))
                 ctx.run.note('analysis stopped early: %s' % e)
